@@ -37,7 +37,7 @@ MIN_HITS = {
         'm:agnostic-window-shift': 150, 'agnostic:absent-domain-round': 20, 'agnostic:W=1': 3, 'agnostic:W=2': 3,
         'agnostic:W=3': 3, 'agnostic:dlr=1.0': 3,
         'm:apfl-coef': 100, 'm:apfl-keyset': 100, 'apfl:coef-at-boundary': 5, 'hit:apfl-eval-with-unseen-client': 30,
-        'hyp:offset-loss': 15, 'ignore:value-dependent-base-optimizer': 20, 'm:hyp-argmin': 300, 'm:hyp-argmin-eval': 300, 'm:hyp-oracle': 150, 'm:hyp-empty': 60, 'hyp:empty-after-update': 10, 'hyp:K=1': 2,
+        'hyp:offset-loss': 15, 'ignore:value-dependent-base-optimizer': 20, 'hit:mime-clip-band-probe': 8, 'm:hyp-argmin': 300, 'm:hyp-argmin-eval': 300, 'm:hyp-oracle': 150, 'm:hyp-empty': 60, 'hyp:empty-after-update': 10, 'hyp:K=1': 2,
         'hyp:K=4': 2, 'hyp:sopt=momentum': 2, 'hyp:sopt=adam': 2,
         'm:mime-server-bound': 100, 'm:mime-diag-bound': 200, 'm:mime-oracle': 100, 'mime:all-far-clipped-round': 60,
         'm:ignore-ignored': 100, 'm:ignore-trained': 100, 'm:ignore-oracle': 100,
@@ -590,6 +590,7 @@ def run_mime(ctx, fedjax, jax, jnp, cfg, h, cache):
   if not r.ok:
     return ctx.case_done(None, sample=wit, klass='mime:raised')
   state = r.value
+  state0, band = state, None
   o64 = MimeOracle(init, spec, slr, clip, np.float64)
   o32 = MimeOracle(init, spec, slr, clip, np.float32)
   steps_total = 0
@@ -605,6 +606,8 @@ def run_mime(ctx, fedjax, jax, jnp, cfg, h, cache):
     if not r.ok:
       return ctx.case_done(None, sample=wit, klass='mime:raised')
     state, diag = r.value
+    if rnd == 0:
+      band = (clients, {c: float(np.asarray(d['delta_l2_norm'])) for c, d in diag.items() if 'delta_l2_norm' in d})
     after = toy.to_np(state.params)
     nontrivial = nontrivial or len(ids) >= 2
     # ---- bound monitors (no oracle needed)
@@ -648,6 +651,27 @@ def run_mime(ctx, fedjax, jax, jnp, cfg, h, cache):
         f'clipped deltas) by {diff:.3g} (tol {tol:.3g}; a full step is {slr * clip:.3g})',
         {**rw, 'got': after, 'expected': o64.params, 'tol': tol, 'unclipped_norms': norms64})
     ctx.notes['mime_max_diff_over_tol'] = max(ctx.notes.get('mime_max_diff_over_tol', 0.0), float(diff / tol))
+  # ---- band probe: the same first round with the bound placed 0.05 % BELOW one client's unclipped update norm (an update only
+  #      just above the bound must be scaled onto it like any other); a second algorithm object is needed for the other bound
+  if band is not None and h['data_seed'] % 3 == 0:
+    clients0, norms0 = band
+    pos = sorted(c for c, v in norms0.items() if np.isfinite(v) and v > 1e-4)
+    if pos:
+      target = pos[h['data_seed'] % len(pos)]
+      clip2 = norms0[target] / 1.0005
+      hp_train2 = fedjax.ShuffleRepeatBatchHParams(batch_size=BATCH, num_epochs=1 if spec[0] == 'adam' else 2, seed=29)
+      from fedjax.algorithms import mime_lite as _ml
+      bw = {**wit, 'band_probe': True, 'clip': clip2, 'unclipped_norms_round0': norms0, 'target_client': target}
+      rb = ctx.call('mime_lite.apply', lambda: _ml.mime_lite(_pel, toy.fedjax_optimizer(spec), hp_train2, fedjax.PaddedBatchHParams(batch_size=BATCH),
+                                                            server_learning_rate=slr, client_delta_clip_norm=clip2).apply(state0, clients0), witness=bw)
+      if rb.ok:
+        ctx.count('hit:mime-clip-band-probe')
+        for c, dg in rb.value[1].items():
+          if 'clipped_delta_l2_norm' in dg:
+            cn = float(np.asarray(dg['clipped_delta_l2_norm']))
+            mon(ctx, 'mime-diag-bound', np.isfinite(cn) and cn <= clip2 * (1 + 1e-5), 'mime/clipped-delta-norm-exceeds-clip',
+                f'band probe: client {c!r} with unclipped norm {norms0.get(c)} is aggregated with norm {cn} > clip {clip2}',
+                {**bw, 'client': c})
   key = ('mime', cfg, tuple(h['sizes']), tuple(map(tuple, h['cohorts'])), h['data_seed'])
   klass = ['leg:mime', f'mime:opt={spec[0]}'] + (['mime:discarded'] if discarded else [])
   ctx.case_done(key if (nontrivial and not discarded and len(h['cohorts']) >= 3) else None,
